@@ -149,6 +149,9 @@ func init() {
 			case c.Kind == 2:
 				action = 3
 				arg = uint64([]int{0, 1, 2, 3, 7, 64, 100, 1000, 4096, 5000, 65536, 70000}[r.Intn(12)])
+				if r.Chance(1, 4) {
+					arg |= uint64(1+r.Intn(1000)) << 32
+				}
 			case c.Kind == 1:
 				action = 0
 				arg = uint64(1 + r.Intn(6))
@@ -199,7 +202,7 @@ func init() {
 			case 1, 2:
 				return c.Kind == 0 || c.Kind == 3
 			case 3:
-				return c.Kind == 2 && st.A[2] <= 1<<17
+				return c.Kind == 2 && st.A[2]&0xFFFFFFFF <= 1<<17
 			}
 			return false
 		},
@@ -308,8 +311,24 @@ func execCurStep(w *World, st *Step) {
 				}
 			}
 		case 3:
-			buf := make([]uint32, st.A[2])
-			n := c.many.NextMany(buf)
+			buf := make([]uint32, st.A[2]&0xFFFFFF)
+			var n int
+			if st.A[2]>>32 != 0 {
+				// the 64-bit flavour: values are OR-ed with a high mask
+				hs := (st.A[2] >> 32) << 32
+				b64 := make([]uint64, len(buf))
+				n = c.many.NextMany64(hs, b64)
+				for i := 0; i < n && i < len(b64); i++ {
+					if b64[i]&^0xFFFFFFFF != hs {
+						bad("NextMany64 mask wrong", fmt.Sprintf("value %#x does not carry the mask %#x", b64[i], hs))
+						return
+					}
+					buf[i] = uint32(b64[i])
+				}
+				w.probe("nextmany64")
+			} else {
+				n = c.many.NextMany(buf)
+			}
 			if n < 0 || n > len(buf) || c.pos+n > len(c.elems) {
 				bad("NextMany count wrong", fmt.Sprintf("NextMany(len %d)=%d with %d remaining", len(buf), n, len(c.elems)-c.pos))
 				return
